@@ -15,17 +15,29 @@ def strip_ansi(s):
         out.append(s[i]); i += 1
     return ''.join(out)
 def isword(c): return c.isalnum() or c == '_'
-def strip_prefixes(s, letters):
-    # remove a prefix letter (u/U or b/B) that is followed by optional r/R and a quote and preceded by non-word or start
+def strip_prefixes(s, letters, overlap=False):
+    """remove a prefix letter (u/U or b/B) that is followed by an optional r/R and a quote and preceded by a
+    non-word character or the start of the text.
+
+    Two readings of "string-prefix letter" exist for texts such as  u'u'  whose *content* starts with a prefix
+    letter directly followed by the closing quote:
+      overlap=False (default)  a quote that was just recognised as the opening quote of a prefixed literal is
+                               not at the same time the word boundary in front of the next candidate (left to
+                               right, non-overlapping): u'u' -> 'u'
+      overlap=True             every candidate is judged on its own: u'u' -> ''
+    The property text does not choose between them; `matches3` reports the pairs on which they differ."""
     out = []; i = 0; n = len(s)
+    blocked = -1          # index of a quote consumed as the opening quote of the previous prefixed literal
     while i < n:
         c = s[i]
-        if c in letters and (i == 0 or not isword(s[i-1])) :
+        if c in letters and (i == 0 or not isword(s[i-1])) and (overlap or i - 1 != blocked or i == 0):
             j = i + 1
             if j < n and s[j] in 'rR': j += 1
             if j < n and s[j] in '\'"':
-                # drop the letter c only
-                i += 1; continue
+                # drop the letter c only; the rest up to and including the quote is copied
+                out.extend(s[i+1:j+1])
+                blocked = j
+                i = j + 1; continue
         out.append(c); i += 1
     return ''.join(out)
 def rm_blankline(w):
@@ -73,23 +85,35 @@ def base(g, w, fl):
     if g == w: return True
     if fl['ELLIPSIS'] and ellipsis_ref(g, w): return True
     return False
-def matches(got, want, fl):
+def matches(got, want, fl, overlap=False):
     if not want: return True
     if got == want: return True
     g, w = strip_ansi(got), strip_ansi(want)
-    g, w = strip_prefixes(g, 'uU'), strip_prefixes(w, 'uU')
-    g, w = strip_prefixes(g, 'bB'), strip_prefixes(w, 'bB')
+    g, w = strip_prefixes(g, 'uU', overlap), strip_prefixes(w, 'uU', overlap)
+    g, w = strip_prefixes(g, 'bB', overlap), strip_prefixes(w, 'bB', overlap)
     if not fl['DONT_ACCEPT_BLANKLINE']:
         w = rm_blankline(w)
     g, w = strip_trailing(g), strip_trailing(w)
-    if fl['NORMALIZE_WHITESPACE'] or fl['IGNORE_WHITESPACE']:
+    ws = fl['NORMALIZE_WHITESPACE'] or fl['IGNORE_WHITESPACE']
+    if ws:
         g, w = ' '.join(g.split()), ' '.join(w.split())
     if fl['IGNORE_WHITESPACE']:
         g, w = ''.join(g.split()), ''.join(w.split())
     if base(g, w, fl): return True
     if fl['NORMALIZE_REPR']:
+        def inner(t):
+            # what is left once the surrounding quotes are ignored is subject to the same whitespace
+            # normalisation as the text as a whole (otherwise switching NORMALIZE_WHITESPACE on could turn
+            # a match into a mismatch: got ' a', want "' a'")
+            t = t[1:-1]
+            return t.strip() if ws else t
         for q in '"\'':
-            if len(g) >= 2 and g[0] == q and g[-1] == q and base(g[1:-1], w, fl): return True
+            if len(g) >= 2 and g[0] == q and g[-1] == q and base(inner(g), w, fl): return True
         for q in '"\'':
-            if len(w) >= 2 and w[0] == q and w[-1] == q and base(w[1:-1], g, fl): return True
+            if len(w) >= 2 and w[0] == q and w[-1] == q and base(inner(w), g, fl): return True
     return False
+def matches3(got, want, fl):
+    """True / False, or None where the two readings of "string-prefix letter" disagree (not judged)"""
+    a = matches(got, want, fl, False)
+    b = matches(got, want, fl, True)
+    return a if a == b else None
